@@ -130,7 +130,7 @@ func cleanPath(path string) string {
 	var b = []byte(path)
 	for i := 0; i < len(b); i++ {
 		if b[i] == '/' {
-			if b[i+1] == '.' && b[i+2] == '.' {
+			if b[i+1] == '.' && b[i+2] == '.' && (i+3 == len(b) || b[i+3] == '/') {
 				s := bytes.LastIndexByte(b[:i], '/')
 				if string(b[s+1:i]) == ".." {
 					// A leading ".." element cannot be eliminated.
